@@ -1,5 +1,5 @@
 """C08 — fit ends in a coherent fitted object or a clean AssertionError."""
-from harness import k_api, k_ordinal, k_quantiles, k_transform
+from harness import k_api, k_categorical, k_ordinal, k_quantiles, k_transform
 
 
 def obligations(tier):
@@ -8,5 +8,6 @@ def obligations(tier):
         k_api.obligation(tier, {"C08"}, "O8.6 end to end: every class completes or raises AssertionError; per-feature attributes coherent; values_orders a well-formed partition covering the training values; dropped features untouched",
                          ["BinaryCarver", "ContinuousCarver", "Discretizer", "QuantitativeDiscretizer", "ContinuousDiscretizer"], ns=[4] if quick else [4, 5], max_pats=6 if quick else 20),
         k_quantiles.obligation(tier, {"C08"}, "O8.1 find_quantiles/fit_feature: no internal error, unique strictly increasing leaders, inf sentinel", ["sorted", "free"]),
+        k_categorical.obligation(tier, {"C08"}, "O8.7 qualitative / ordinal features with solver-chosen level sizes (incl. every level rarer than min_freq) through Categorical-, Qualitative-Discretizer and Discretizer: completes, attributes coherent, dropped features untouched"),
         k_ordinal.obligation(tier, {"C08"}, "O8.2 OrdinalDiscretizer.fit: terminates without internal error; result is a well-formed partition of the ranking"),
     ]
